@@ -219,6 +219,15 @@ func c14Exec(scn c14Scn, ch *env.Chooser) *c14Obs {
 				repo.Add(ref.SDRRec{ID: nextID, Data: buildRecord(nextID, recShape{Type: 1, Enc: 1, NChar: 6}, byte(nextID))}, 1)
 				repo.KeepReservation = false
 			}),
+			mod("erase-last-record-reservation-kept", func() {
+				if len(repo.Recs) > 1 {
+					repo.KeepReservation = true
+					repo.Erase(len(repo.Recs)-1, 1)
+					repo.KeepReservation = false
+				} else {
+					repo.CancelReservation()
+				}
+			}),
 		}
 	}
 	var got bmc.SDRRepository
@@ -325,7 +334,7 @@ func mods(ms []string) string {
 }
 
 func runC14(r *rep.R) {
-	r.SetRule("a case is one execution of RetrieveSDRRepository on a session against the reference BMC's repository: all repositories of <= n records over a record-shape alphabet (full records x 4 ID-string encodings x lengths {0,1|2,15,16,max}, compact, FRU locator, MC locator, OEM) x 6 ID layouts (first ID zero/non-zero, ascending, descending, sparse to 0xFFFE), structured repositories of 1..40 records; with faults: before each request of the walk one (quick) or two (thorough) of {add, erase first, erase last, reservation cancelled, add within the same second, add with the reservation kept}; oracle: result = exactly the full sensor records of the repository's final state, keyed by own ID, fields equal to the reference decoding")
+	r.SetRule("a case is one execution of RetrieveSDRRepository on a session against the reference BMC's repository: all repositories of <= n records over a record-shape alphabet (full records x 4 ID-string encodings x lengths {0,1|2,15,16,max}, compact, FRU locator, MC locator, OEM) x 6 ID layouts (first ID zero/non-zero, ascending, descending, sparse to 0xFFFE), structured repositories of 1..40 records; with faults: before each request of the walk one (quick) or two (thorough) of {add, erase first, erase last, reservation cancelled, add within the same second, add with the reservation kept, erase last with the reservation kept}; timestamps near 2^31 and FFFFFFFFh; oracle: result = exactly the full sensor records of the repository's final state, keyed by own ID, fields equal to the reference decoding")
 	var shapes []recShape
 	for enc := byte(0); enc < 4; enc++ {
 		for _, n := range []int{0, 2, 15, 16} {
@@ -448,6 +457,13 @@ func runC14(r *rep.R) {
 		run(scn, 1)
 		scn = fr
 		scn.TimeBase, scn.EraseBase = 0x80000005, 0xFFFFFFFE
+		run(scn, 1)
+	}
+	// an erase that takes the erase timestamp across 2^31 (7FFFFFFFh -> 80000000h)
+	// while the addition timestamp stays put: timestamps are unsigned
+	for _, fr := range faultRepos[:3] {
+		scn := fr
+		scn.TimeBase, scn.EraseBase = 0x80000005, 0x7FFFFFFF
 		run(scn, 1)
 	}
 	for _, out := range []uint32{0xFFFFFFFA, 0xFFFFFFFF} {
